@@ -40,7 +40,8 @@ func NewUnpackInfo(dst string, header *tar.Header) (UnpackInfo, error) {
 
 	// Check for paths outside our directory, they are forbidden
 	target := filepath.Clean(path)
-	if rel, err := filepath.Rel(dst, target); err != nil || rel == ".." || strings.HasPrefix(rel, ".."+string(filepath.Separator)) {
+	rel, err := filepath.Rel(dst, target)
+	if err != nil || rel == ".." || strings.HasPrefix(rel, ".."+string(filepath.Separator)) {
 		return UnpackInfo{}, errors.New("invalid filename, traversal with \"..\" outside of current directory")
 	}
 
@@ -51,14 +52,20 @@ func NewUnpackInfo(dst string, header *tar.Header) (UnpackInfo, error) {
 	// and likely indicates a hand-crafted tar file, which we are not in
 	// the business of supporting here.
 	//
-	// The strategy is to Lstat each path  component from dst up to the
-	// immediate parent directory of the file name in the tarball, checking
-	// the mode on each to ensure we wouldn't be passing through any
-	// symlinks.
+	// The strategy is to Lstat each path component from dst down to and
+	// including the entry's own path, checking the mode on each to ensure
+	// we wouldn't be passing through (or writing over) any symlinks. The
+	// cleaned path is walked, not the raw name, so that "x/../link/f" is
+	// seen for what it is.
 	currentPath := dst // Start at the root of the unpacked tarball.
-	components := strings.Split(header.Name, "/")
+	components := strings.Split(rel, string(filepath.Separator))
 
-	for i := 0; i < len(components)-1; i++ {
+	for i := 0; i < len(components); i++ {
+		if i == len(components)-1 && header.Typeflag == tar.TypeSymlink {
+			// Creating a symlink never writes through its own path; it
+			// fails if something is already there.
+			break
+		}
 		currentPath = filepath.Join(currentPath, components[i])
 		fi, err := os.Lstat(currentPath)
 		if os.IsNotExist(err) {
